@@ -41,6 +41,13 @@ def _f5(case, details):
     """F5: the two L-RMSD routes disagree, and only with each other, on a pair whose chain sizes are ambiguous"""
     return details.get('measure') == 'lrmsd' and details.get('lrmsd_fast_vs_sql_only') is True and details.get('ambiguous_chain_sizes') is True
 
+@signature('blank_chain_export_not_rereadable')
+def _f24(case, details):
+    """F24: a table holding an EMPTY chain identifier is exported with a blank column 22, which the parser rejects
+    (ValueError 'chainID not found', as C01 requires for a blank chain with a blank segID)"""
+    return case.get('kind') == 'table' and details.get('blank_chain') is True \
+        and details.get('why') == 'reading the exported text back raised ValueError' and 'chainID' in str(details.get('message', ''))
+
 def match(prop, mismatch, active):
     for k in active:
         f = SIGNATURES.get(k['signature'])
